@@ -113,7 +113,7 @@ impl Property for C01 {
         1600
     }
     fn quick_cases(&self) -> u64 {
-        64_000
+        192_000
     }
     fn states_termination(&self) -> bool {
         // generated programs terminate by construction (and the VM has a budget): a case that does
